@@ -5,7 +5,7 @@ For every crash point (logical redo process P, k-th state-changing libc call) of
   fresh project -> pre-state -> build under the shim with RVSHIM_KILL -> wait until no process of the
   invocation's session is left -> recovery `redo-ifchange top` (watchdog 30 s, exit 0, closure == from-scratch
   evaluation, no "you modified it") -> edit the source -> `redo-ifchange top` again (exit 0, contents) ->
-  `redo-ood` prints nothing -> no byte of .redo/locks is locked -> no *.redo.tmp left.
+  `redo-ood` lists nothing that top needs -> no byte of .redo/locks is locked -> no *.redo.tmp left.
 """
 import json
 import os
@@ -257,7 +257,11 @@ def crash_job(args):
             fails.append("edit-rebuild-stale-content")
         ood = e3.run_session(["redo-ood"], proj.p, proj.env, root, "ood", timeout=RECOVERY_WATCHDOG)
         tr["ood"] = {"rc": ood["rc"], "out": ood["out"][-400:], "err": ood["err"][-400:]}
-        if ood["watchdog"] or ood["rc"] != 0 or ood["out"].strip():
+        # nothing that `top` needs may be listed (a target that an edit has just cut out of top's closure -- world dynamic --
+        # is legitimately out of date: nobody asked for it)
+        needed = set(oracles.closure_now(proj.model, ["top"]))
+        listed = {l.strip() for l in ood["out"].split("\n") if l.strip()}
+        if ood["watchdog"] or ood["rc"] != 0 or (listed & needed):
             fails.append("ood-not-empty")
         locks = e3.held_locks(proj.p / ".redo" / "locks")
         if locks:
